@@ -180,7 +180,7 @@ func ghost_emitted(eb *extension.AsyncEventBroker[event.MessageMetadata]) vcSeq[
 //@      ghost_nemitted(&s.extHost.Events.AfterMessageDeleted) - old(ghost_nemitted(&s.extHost.Events.AfterMessageDeleted)) ==
 //@         old(len(s.boxes[message.Mailbox()].messages)) + 1 - len(s.boxes[message.Mailbox()].messages)
 //@   ensures[noCapNoEviction C08] err == nil && s.cap <= 0 && old(vcHas(s.boxes, message.Mailbox())) ==> s.boxes[message.Mailbox()].first == old(s.boxes[message.Mailbox()].first)
-//@   serves C07 C08 C01
+//@   serves C07 C08 C01 C16
 
 // PurgeMessages: the mailbox becomes empty; one deleted event per message that was in it, each
 // carrying the mailbox name and the id of one of those messages.
